@@ -30,6 +30,12 @@ def degenQ (p q : Pt2 Rat) : Bool :=
 def normQ (f : List (Pt3 Rat)) : Except Err (List (Pt3 Rat)) :=
   if f.length < 3 then .error .value else .ok f
 
+/-- key function given as a table: the i-th vertex of `f` has key `ths[i]` -/
+def keyOf (f : List (Pt3 Rat)) (ths : List Rat) (p : Pt3 Rat) : Rat :=
+  match (f.zip ths).find? (fun q => q.1 == p) with
+  | some q => q.2
+  | none => 0
+
 def errJson : Err → Json
   | .value => err "ValueError"
   | .index => err "IndexError"
@@ -133,15 +139,37 @@ def step (j : Json) : R Json := do
     let (o, rtol) ← field j "read" >>= readOpts
     pure (obj [("net", net2Json (read2d codecQ numQ (nearQ rtol) degenQ lines o))])
   | "csv3d" =>
-    let fracs ← field j "fracs" >>= jList (jList jPt3)
+    let fracs0 ← field j "fracs" >>= jList (jList jPt3)
     let dom ← jOpt jBox3 (fieldD j "domain" Json.null)
     let hasDom ← fBool j "has_domain"
+    -- angle keys of the construction sort (null: network built with sort_points=False) and of the
+    -- reader's re-sort of the stored lists (null: vertices kept, the harness compares vertex cycles)
+    let th1 ← jOpt (jList (jList jRat)) (fieldD j "thetas1" Json.null)
+    let th2 ← jOpt (jList (jList jRat)) (fieldD j "thetas2" Json.null)
+    let fracs : List (List (Pt3 Rat)) := match th1 with
+      | none => fracs0
+      | some ths => (fracs0.zip ths).map (fun p => angSort (keyOf p.1 p.2) p.1)
     let lines : List (Line Tok) := write3d codecQ fracs dom
-    pure (obj [("lines", ofList lineJson lines), ("net", net3Json (read3d codecQ normQ lines hasDom))])
+    let norm : List (Pt3 Rat) → Except Err (List (Pt3 Rat)) := match th2 with
+      | none => normQ
+      | some ths => normSort (fun f => match (fracs.zip ths).find? (fun p => p.1 == f) with
+          | some p => keyOf p.1 p.2
+          | none => fun _ => 0)
+    pure (obj [("held", ofList (fun f => ofList (fun p => ofRats [p.1, p.2.1, p.2.2]) f) fracs),
+               ("lines", ofList lineJson lines), ("net", net3Json (read3d codecQ norm lines hasDom))])
   | "raw3d" =>
     let lines ← field j "lines" >>= jList jLine
     let hasDom ← fBool j "has_domain"
     pure (obj [("net", net3Json (read3d codecQ normQ lines hasDom))])
+  | "ell3d" =>
+    let lines ← field j "lines" >>= jList jLine
+    let hasDom ← fBool j "has_domain"
+    -- `mk` only records the nine parameters it is handed (as three triples)
+    let mk : List Rat → Except Err (List (Pt3 Rat)) := fun vs =>
+      match vs with
+      | [a, b, c, d, e, f, g, h, i] => .ok [(a, b, c), (d, e, f), (g, h, i)]
+      | _ => .error .value
+    pure (obj [("net", net3Json (readElliptic codecQ mk lines hasDom))])
   | "txt" =>
     let cs ← field j "cols" >>= jList jCol
     let cols := cs.map (·.1)
